@@ -36,9 +36,13 @@ BoundaryCases ==
     [] Rule = "email" -> {<<97, 64>> \o Rep(97, k) \o t : k \in 60..66, t \in {<<>>, <<46, 98>>, <<45, 97>>, <<45>>}}
                          \cup {<<97, 64, 98, 46>> \o Rep(49, k) : k \in 62..65}
                          \cup {<<97, 64>> \o Rep(97, 62) \o <<45>> \o Rep(97, k) : k \in 0..2}
+                         \* the regular expression puts no bound on the whole address: long local parts and many labels
+                         \cup {Rep(97, k) \o <<64, 98, 46, 99>> : k \in {127, 128, 250, 251, 252, 253, 254, 255, 256, 257, 300, 520}}
+                         \cup {<<97, 64>> \o Rep(98, 63) \o <<46>> \o Rep(99, 63) \o <<46>> \o Rep(100, 63) \o <<46>> \o Rep(101, k) : k \in {60, 61, 62, 63, 64}}
     [] Rule = "autolink" -> {<<60>> \o Rep(97, k) \o <<58, 120, 62>> : k \in 1..35}
                             \cup {<<60, 97>> \o Rep(43, k) \o <<58, 62>> : k \in 29..33}
                             \cup {<<60, 97, 64>> \o Rep(97, k) \o <<62>> : k \in 61..66}
+                            \cup {<<60>> \o Rep(97, k) \o <<64, 98, 46, 99, 62>> : k \in {250, 256, 300}}
     [] OTHER -> {}
 InitBoundary == body \in BoundaryCases
 
